@@ -121,6 +121,10 @@ DEFS = [
                            field("c", U8, frm={"kind": "from", "ty": U8, "ref": True}, mapfn=True), field("d", BOOL)], error="RecErr"),
     struct("FValidate", [field("a", U8), field("b", U8, default="trait")], error="RecErr", validate=True),
     struct("FMissing", [field("my_a", U8, missing_fn=True), field("b", BOOL, missing_fn=True, rename="bee"), field("c", U8)], error="RecErr", rename_all="camelCase"),
+    # default AND missing_field_error on one field (added after seeded change C08-j: the custom missing function shadowed the default):
+    # an absent key with a default is not missing, whatever else the field carries
+    struct("FMissDef", [field("a", U8, missing_fn=True, default=("expr", "9", num_rv(9))), field("b", BOOL, missing_fn=True),
+                        field("c", U8, missing_fn=True, default="trait"), field("d", STR, default=("expr", "String::from(\"q\")", rv("str", s="q")))], error="RecErr"),
     struct("FDenyFn", [field("a", U8), field("sk", U8, skip=True), field("b_c", BOOL, default="trait")], error="RecErr", deny="fn", rename_all="camelCase"),
     struct("FAll", [field("a", U8, frm={"kind": "try", "ty": U8, "ref": False}, mapfn=False), field("b", U8, mapfn=True, default=("expr", "3", num_rv(3))),
                     field("c", STR, missing_fn=True)], error="RecErr", deny="fn", validate=True),
@@ -190,7 +194,7 @@ ENTRIES = [
     ("opt", ("hmap", "u8", ("arr", BOOL, 1))), ("tup", [("opt", U8), ("vec", ("vec", U8)), ("bmap", "String", I8)]), ("box", ("opt", ("box", STR))),
     ("vec", ("ref", "EUnit")), ("hmap", "String", ("ref", "ETagCamel")), ("bmap", "i32", ("ref", "SDefault")), ("opt", ("ref", "SMix")),
     ("vec", ("cs", "String")), ("hset", ("opt", U8)),
-    ("ref", "FFrom"), ("ref", "FTry"), ("ref", "FTryF"), ("ref", "FMap"), ("ref", "FFromMapDef"), ("ref", "FValidate"), ("ref", "FMissing"), ("ref", "FDenyFn"), ("ref", "FAll"),
+    ("ref", "FFrom"), ("ref", "FTry"), ("ref", "FTryF"), ("ref", "FMap"), ("ref", "FFromMapDef"), ("ref", "FMissDef"), ("ref", "FValidate"), ("ref", "FMissing"), ("ref", "FDenyFn"), ("ref", "FAll"),
     ("ref", "GTry"), ("ref", "GEnum"), ("ref", "GCTry"), ("vec", ("ref", "GTry")),
     # probe-free twins (no enter / exit events: judged at the end of the call against the declarative semantics)
     ("bare", "SPlain"), ("bare", "SThree"), ("bare", "SCamel"), ("bare", "SLower"), ("bare", "SRename"), ("bare", "SDeny"), ("bare", "SDefault"), ("bare", "SOpt"),
